@@ -5,6 +5,7 @@
 import CC.Drv.Common
 import CC.Drv.ChaCha
 import CC.Drv.Null
+import CC.Drv.Blake
 import CC.Drv.Threefish
 import CC.Drv.Skein
 open CC CC.Drv
@@ -12,6 +13,7 @@ open CC CC.Drv
 structure DS where
   cfg : Cfg := {}
   chacha : CC.Drv.ChaCha.St := {}
+  blake : CC.Drv.Blake.St := {}
   skein : CC.Drv.Skein.St := {}
 
 def machOfName : String → Option CC.Simd.Mach
@@ -32,6 +34,9 @@ def step (ds : DS) (line : String) : DS × String :=
   | "chacha" :: _ | "guts" :: _ =>
     let (s, out) := CC.Drv.ChaCha.step ds.cfg ds.chacha toks
     ({ ds with chacha := s }, out)
+  | "blake" :: _ =>
+    let (s, out) := CC.Drv.Blake.step ds.cfg ds.blake toks
+    ({ ds with blake := s }, out)
   | "null" :: _ => (ds, CC.Drv.Null.step ds.cfg toks)
   | "tf" :: _ | "tfl" :: _ => (ds, CC.Drv.Threefish.step toks)
   | "skein" :: _ =>
